@@ -25,7 +25,10 @@ from .c05 import T0_NS, cache_snapshot, snapshot
 
 SLOTS = ["foo", "data", "grp/sp ace", "Ünï"]
 BYSTANDERS = ["keep", "grp/keep2", "notes.txt", "foo.bak"]
-INNER = ["f1", "f2", "sub/f3", "a'b", "z"]
+# files inside recorded directories: nested 2-3 levels, the same basename in several sub-directories
+INNER = ["labels", "train/labels", "val/labels", "val/deep/labels", "f1", "train/f1", "val/f1",
+         "a'b", "z"]
+SUBDIRS = ["", "train", "val", "val/deep", "other"]
 
 slot_s = st.integers(0, 11)
 content_s = st.one_of(gen.small_contents(), gen.contents(pool_weight=1, max_size=16))
@@ -34,7 +37,10 @@ delta_s = st.one_of(
     st.integers(1_000, 900_000), st.integers(-900_000, -1_000),  # sub-second
     st.integers(1_000_000, 10_000_000_000), st.integers(-10_000_000_000, -1_000_000),
 )  # micro-seconds
-tree_s = st.dictionaries(st.sampled_from(INNER), content_s, min_size=1, max_size=3)
+tree_s = st.one_of(
+    st.dictionaries(st.sampled_from(INNER), content_s, min_size=1, max_size=4),
+    st.dictionaries(st.sampled_from(INNER[:4]), content_s, min_size=2, max_size=4),  # same-named files
+)
 
 
 def _triple(p):
@@ -105,8 +111,14 @@ class LinksMachine(TraceMachine):
             return None
         return (os.lstat(path).st_ino, os.stat(path).st_mtime)
 
+    def same_names(self, path):
+        names = [os.path.basename(f) for f in self.files_of(path)]
+        return len(names) != len(set(names))
+
     def observe(self, path):
         """Remember the mtimes an entry's files carry right now (called at record time)."""
+        if os.path.isdir(path) and self.same_names(path):
+            self.labels.add("record:dir-with-same-named-files")
         for f in self.files_of(path):
             self.seen.setdefault(f, set()).add(os.stat(f).st_mtime)
 
@@ -357,6 +369,28 @@ class LinksMachine(TraceMachine):
         self.touch(rel, "file-renamed-in-dir")
 
     @traced
+    def user_move_in_dir(self, slot, sub, dest):
+        """Move a file to another sub-directory of a recorded directory: basename and mtime stay."""
+        rel = self.existing(slot, dirs_only=True)
+        if rel is None:
+            return
+        path = self.p(rel)
+        files = self.files_of(path)
+        if not files:
+            return
+        src = files[sub % len(files)]
+        dst = os.path.join(path, *[x for x in dest.split("/") if x], os.path.basename(src))
+        if dst == src or os.path.lexists(dst):
+            return
+        m = os.stat(src).st_mtime
+        if m in self.seen.get(dst, ()):
+            return  # would re-create a (path, mtime) pair seen before (moving back): not a change
+        self.seen.setdefault(dst, set()).add(m)
+        os.makedirs(os.path.dirname(dst), exist_ok=True)
+        os.rename(src, dst)
+        self.touch(rel, "file-moved-between-subdirs")
+
+    @traced
     def user_delete_in_dir(self, slot, sub):
         rel = self.existing(slot, dirs_only=True)
         if rel is None:
@@ -375,10 +409,10 @@ class LinksMachine(TraceMachine):
         self.labels.add("bystander")
 
     # ---- one dispatcher rule (declared twice) keeps the rule mix at record / user / cleanup ------
-    USER_OPS = (["modify"] * 4 + ["replace"] * 3 + ["add_in_dir"] * 2 + ["rename_in_dir"] * 2
+    USER_OPS = (["modify"] * 4 + ["replace"] * 3 + ["add_in_dir"] * 2 + ["rename_in_dir"] * 2 + ["move_in_dir"] * 2
                 + ["delete_in_dir", "remove", "create", "bystander"])
 
-    def _user(self, what, slot, sub, content, flag, delta, name, kind, tree, then_cleanup, recycle):
+    def _user(self, what, slot, sub, content, flag, delta, name, kind, tree, then_cleanup, recycle, dest):
         if what == "modify":
             self.user_modify(slot=slot, sub=sub, content=content, inplace=flag, delta=delta)
         elif what == "replace":
@@ -387,6 +421,8 @@ class LinksMachine(TraceMachine):
             self.user_add_file_in_dir(slot=slot, name=name, content=content, delta=delta)
         elif what == "rename_in_dir":
             self.user_rename_in_dir(slot=slot, sub=sub, name=name)
+        elif what == "move_in_dir":
+            self.user_move_in_dir(slot=slot, sub=sub, dest=dest)
         elif what == "delete_in_dir":
             self.user_delete_in_dir(slot=slot, sub=sub)
         elif what == "remove":
@@ -399,10 +435,11 @@ class LinksMachine(TraceMachine):
             self.cleanup(mask=0, ghost=False)
 
     _USER_ARGS = dict(  # noqa: C408
-        what=st.sampled_from(USER_OPS), slot=slot_s, sub=st.integers(0, 5), content=content_s,
+        what=st.sampled_from(USER_OPS), slot=slot_s, sub=st.integers(0, 11), content=content_s,
         flag=st.sampled_from([True, True, False]), delta=delta_s,
         name=st.sampled_from(INNER + ["new", "renamed"]), kind=st.sampled_from(["file", "dir"]), tree=tree_s,
-        then_cleanup=st.booleans(), recycle=st.sampled_from([False, False, True]))
+        then_cleanup=st.booleans(), recycle=st.sampled_from([False, False, True]),
+        dest=st.sampled_from(SUBDIRS))
 
     @rule(**_USER_ARGS)
     def user_a(self, **kw):
@@ -479,6 +516,8 @@ class LinksMachine(TraceMachine):
         # coverage bookkeeping
         for s, why in guarded.items():
             self.labels.add("guarded:" + why)
+            if why != "in-use" and os.path.isdir(self.p(s)) and self.same_names(self.p(s)):
+                self.labels.add("guarded:dir-with-same-named-files")
         if any(w not in ("in-use", "removed") for w in guarded.values()):
             self.nontrivial = True
             self.n_guarded += 1
